@@ -6,6 +6,7 @@ mod c04;
 mod c06;
 mod c09;
 mod c10;
+mod c11;
 mod c12;
 mod c13;
 mod c15;
@@ -36,6 +37,7 @@ fn main() {
         "C06" => c06::replay(&cases, &mut rep),
         "C09" => c09::replay(&cases, &mut rep),
         "C10" => c10::replay(&cases, &mut rep),
+        "C11" => c11::replay(&cases, &mut rep),
         "C12" => c12::replay(&cases, &mut rep),
         "C13" => c13::replay(&cases, &mut rep),
         "C15" => c15::replay(&cases, &mut rep),
